@@ -50,6 +50,26 @@ class Predicates:
         self.cache[k] = res
         return res
 
+    def _ret_chain(self, stmts, env, universe):
+        for b in stmts:
+            if b['k'] == 'ReturnStmt':
+                ks = F.kids(b)
+                return self.eval(ks[0], env, universe) if ks else None
+            if b['k'] == 'CompoundStmt':
+                r = self._ret_chain(F.kids(b), env, universe)
+                return r
+            if b['k'] != 'IfStmt':
+                return None
+            c = self.eval(b['c'][0], env, universe)
+            if c is None:
+                return None
+            arm = b['c'][1] if c else b['c'][2]
+            if arm is not None:
+                r = self._ret_chain([arm], env, universe)
+                if r is not None or arm['k'] in ('ReturnStmt', 'CompoundStmt'):
+                    return r
+        return None
+
     def eval(self, e, env, universe):
         k = e['k']
         if k in F.CASTS:
@@ -113,6 +133,19 @@ class Predicates:
                     self._depth = getattr(self, '_depth', 0) + 1
                     try:
                         r = self.eval(F.kids(body[0])[0], {k2: v2 for k2, v2 in env2.items() if v2 is not None}, universe)
+                    finally:
+                        self._depth -= 1
+                    if r is not None:
+                        return r
+                elif len(g.params) == len(args) and body and all(b['k'] in ('IfStmt', 'ReturnStmt') for b in body):
+                    # a chain of `if (c) return e;` ... `return e;` (no assignments, no loops)
+                    env2 = {}
+                    for prm, a in zip(g.params, args):
+                        env2[prm['n']] = self.eval(a, env, universe)
+                    env2 = {k2: v2 for k2, v2 in env2.items() if v2 is not None}
+                    self._depth = getattr(self, '_depth', 0) + 1
+                    try:
+                        r = self._ret_chain(body, env2, universe)
                     finally:
                         self._depth -= 1
                     if r is not None:
